@@ -57,6 +57,15 @@ def mvdr(d, ctx):
         a = gen.cnormal(rng, (K, F, D))
         lead = (K, F)
     a = a * 10 ** rng.uniform(-2, 2, size=(*a.shape[:-1], 1))
+    # bins and sources are independent problems: in one case of three the
+    # levels differ by many orders of magnitude between them (steering gains
+    # 1e-6..1e6, noise levels 1e-9..1e9 per bin)
+    aux = d.aux(111)
+    if aux.integers(0, 3) == 0:
+        a = a * 10.0 ** aux.uniform(-6, 6, size=(*a.shape[:-1], 1))
+        if phi.ndim > 2:
+            phi = phi * 10.0 ** aux.uniform(-9, 9, size=(*phi.shape[:-2], 1, 1))
+        ctx.label('levels-spread')
     ctx.describe(D=D, F=F, K=K, cond=cond, scale=scale, form=form)
     ctx.label(form, 'F==D' if F == D else 'F!=D')
     a_in, phi_in = np.array(a), np.array(phi)
